@@ -16,6 +16,7 @@ type Ctx struct {
 	swMemo        map[*FuncUnit]*searchWrap
 	lrMemo        map[*FuncUnit]int
 	sigKind       string
+	scanRolesMemo *scanRoles
 	L             *Loaded
 	m             *Model
 	e             *Engine
